@@ -294,7 +294,7 @@ MUTATION_KINDS = ['swap-payload-continuation', 'rename-use', 'delete-use', 'dupl
                   'arity-minus', 'arity-plus', 'arity-add-self', 'arity-remove-self', 'move-annotation',
                   'change-mode-head', 'change-mode-shift', 'type-permute-branches', 'type-unfold-once',
                   'type-renamed-copy', 'type-near-miss', 'swap-self-and-client', 'delete-declaration',
-                  'duplicate-declaration']
+                  'duplicate-declaration', 'drop-cut-type', 'annotate-call-cut-same', 'annotate-call-cut-wrong']
 
 
 def _mutate(rng, decls, kind):
@@ -318,6 +318,27 @@ def _mutate(rng, decls, kind):
         else:
             f[1], f[2] = f[2], f[1]
         return f[0], 'may-differ'
+    if kind == 'drop-cut-type':
+        d, f = pick(lambda f: f[0] == 'new' and f[2] is not None)
+        if f is None:
+            return None
+        iscall = f[3][0] == 'call'
+        f[2] = None
+        return ('call' if iscall else 'axiom'), ('same-verdict' if iscall else 'may-differ')
+    if kind in ('annotate-call-cut-same', 'annotate-call-cut-wrong'):
+        d, f = pick(lambda f: f[0] == 'new' and f[2] is None and f[3][0] == 'call')
+        if f is None:
+            return None
+        sig = [x for x in decls if x[0] == 'let' and x[1] == f[3][1]]
+        if not sig:
+            return None
+        t = sig[0][3][1]
+        if kind == 'annotate-call-cut-same':
+            f[2] = ['ty', t, True]
+            return 'call', 'same-verdict'
+        others = [m for m in MODES if m != t[1]]
+        f[2] = ['ty', ('&', rng.choice(others), (('zz', ('1', t[1], None, None)),), None), True]
+        return 'call', 'may-differ'
     if kind == 'swap-self-and-client':
         d, f = pick(lambda f: f[0] in ('sel', 'cast', 'fwd') or (f[0] == 'send'))
         if f is None:
